@@ -24,7 +24,7 @@ var (
 	badTypes      = []string{"", "x", "m", "mx", "cs", "C", "sm", "hh", "gc", "k", "|", "ms "}
 	values        = []string{"1", "0", "-1", "1.5", "-0.25", "1e3", "3.14159", "+2", "100000", "0x1p3", "1_0", ".5", "5.",
 		"inf", "+Inf", "-inf", "nan", "NaN", "1e999", "-1e999", "1e-999", "", "abc", " 1", "1 ", "1:2", "1,2", "--1", "1e", "0x", "٣", "user42", "a:b"}
-	rates = []string{"0.5", "1", "0.1", "0.25", "1e-3", "2", "0", "-0", "-1", "-0.5", "nan", "inf", "-inf", "+Inf", "1e999", "", "abc", "0.5x", " 0.5", "0x1p-1", "1e-400"}
+	rates    = []string{"0.5", "1", "0.1", "0.25", "1e-3", "2", "0", "-0", "-1", "-0.5", "nan", "inf", "-inf", "+Inf", "1e999", "", "abc", "0.5x", " 0.5", "0x1p-1", "1e-400"}
 	tagPool  = []string{"", "a", "b:c", "env:prod", "k:v:w", "host:h1", "x y", "é", "t#1", "@", "#", "a=b", "0", "::", "-", "long_tag_value.with.dots"}
 	others   = []string{"c:container", "T1656581400", "x", "e:1", "zzz", "c", "d:1", " ", "\\n", "a,b"}
 	nss      = []string{"", "", "", "ns", "a.b", "N/s", "é"}
@@ -34,6 +34,34 @@ var (
 	prios      = []string{"low", "normal", "high", "", "LOW", "normal ", "lo"}
 	alerts     = []string{"info", "error", "warning", "success", "", "fatal", "Error", "warn"}
 )
+
+// numText returns a random numeric text: integers of 1..25 digits (incl. the int64 / uint64 / 2^53 edges),
+// fractions, exponents — whatever the value turns out to be, strconv.ParseFloat is the oracle.
+func numText(r *hx.Rng) string {
+	edges := []string{"9223372036854775807", "9223372036854775808", "-9223372036854775808", "-9223372036854775809",
+		"18446744073709551615", "18446744073709551616", "9007199254740993", "9999999999999999999", "999999999999999999",
+		"4294967296", "2147483648", "00000000000000000001", "-0", "+0", "1e19", "1e22", "1e23", "123456789012345678901234567890"}
+	switch r.Intn(5) {
+	case 0:
+		return hx.Pick(r, edges)
+	case 1:
+		n := r.Range(1, 25)
+		b := make([]byte, 0, n+1)
+		if r.Chance(1, 4) {
+			b = append(b, '-')
+		}
+		for i := 0; i < n; i++ {
+			b = append(b, byte('0'+r.Intn(10)))
+		}
+		return string(b)
+	case 2:
+		return fmt.Sprintf("%d.%d", r.Intn(100000), r.Intn(100000))
+	case 3:
+		return fmt.Sprintf("%de%d", r.Intn(1000), r.Intn(40)-20)
+	default:
+		return fmt.Sprintf("%d", r.Intn(1000000))
+	}
+}
 
 func randName(r *hx.Rng) string {
 	switch r.Intn(10) {
@@ -91,6 +119,9 @@ func genMetric(r *hx.Rng) (string, string) {
 	wf := r.Chance(2, 3)
 	name := randName(r)
 	val := hx.Pick(r, values)
+	if r.Chance(1, 3) {
+		val = numText(r)
+	}
 	if wf {
 		val = values[r.Intn(13)]
 	}
